@@ -125,7 +125,10 @@ impl BigRat {
             let ndigits = match digits {
                 Digits::Default | Digits::Scientific | Digits::Engineering => 6,
                 Digits::FullInt | Digits::Fraction => 1000,
-                Digits::Digits(n) => intdigits as i32 + n as i32,
+                Digits::Digits(n) => {
+                    let wanted = intdigits as u64 + n.min(i32::max_value() as u64);
+                    wanted.min(i32::max_value() as u64) as i32
+                }
             };
             // Conditions for exiting:
             // 1. The number is already exact and all the integer
